@@ -77,7 +77,11 @@ func isForwardRangeIndex(idx ssa.Value) bool {
 	return sawInit && sawSelf
 }
 
-func runC17(c *Ctx) {
+func runC17(c *Ctx) { runC17Core(c, true) }
+
+// runC17Core: the ordered fail-over rules of the signer (R1-R3), optionally with the backoff rules (R4). C18, whose
+// statement ends in "so a later genuine endpoint is still used", imports R1-R3 under a rule name of its own.
+func runC17Core(c *Ctx, withBackoff bool) {
 	w := c.w
 	// signer type: implements csr.Signer
 	var sign *ssa.Function
@@ -379,7 +383,9 @@ func runC17(c *Ctx) {
 		c.Unresolved("R1.ctor", "crypki.NewSigner")
 	}
 
-	runC17Backoff(c)
+	if withBackoff {
+		runC17Backoff(c)
+	}
 }
 
 // findIndexOn searches the operands of v (depth-limited) for an IndexAddr whose base expression mentions name.
